@@ -15,3 +15,4 @@ import GSV.Props.C05
 import GSV.Props.C06
 import GSV.Props.C07
 import GSV.Props.C11
+import GSV.Props.C09
